@@ -1,7 +1,9 @@
 (* C02 suite glue: parse a trace line, run the model (GuestMemory defaults over the linear
    find_region), judge the real observation.
-   case:  kind(0 GuestMemoryMmap, 1 MockMem, 3 MockMem whose regions provide get_host_address but no
-          get_slice: every query except get_slice) mode [starts] [lens] op a b c
+   case:  kind(0 GuestMemoryMmap, 1 MockMem (region type writes get_host_address and get_slice itself),
+          2 file-backed GuestMemoryMmap, 3 mock region type that writes only get_host_address (inherits
+          get_slice), 4 writes only get_slice (inherits get_host_address), 5 writes neither)
+          mode [starts] [lens] op a b c
    obs :  k x y z            (op 9 QIter:  k x y z [starts] [lens]) *)
 From VM Require Import Prelude.MachInt Prelude.Outcome Prelude.Tok Impl.Address Impl.Guest Spec.C02.
 
@@ -10,7 +12,12 @@ Definition qop_of (n : N) : option qop :=
   | 0 => Some QFind | 1 => Some QToRegionAddr | 2 => Some QAddressInRange | 3 => Some QCheckAddress
   | 4 => Some QCheckedOffset | 5 => Some QCheckRange | 6 => Some QLastAddr | 7 => Some QHostAddress
   | 8 => Some QGetSlice | 9 => Some QIter | 10 => Some RLastAddr | 11 => Some RAddressInRange
-  | 12 => Some RCheckAddress | 13 => Some RCheckedOffset | 14 => Some RToRegionAddr | _ => None end.
+  | 12 => Some RCheckAddress | 13 => Some RCheckedOffset | 14 => Some RToRegionAddr
+  | 15 => Some RHostAddress | 16 => Some RGetSlice | 17 => Some RAsVolatileSlice | 18 => Some RFileOffset
+  | _ => None end.
+(* which capability methods the region type of an implementor kind writes itself *)
+Definition kind_host (kind : N) : bool := negb ((kind =? 4) || (kind =? 5)).
+Definition kind_slice (kind : N) : bool := negb ((kind =? 3) || (kind =? 5)).
 
 Definition mk (k x y z : N) : obs02 := {| o2_k := k; o2_x := x; o2_y := y; o2_z := z; o2_l1 := []; o2_l2 := [] |}.
 Definition o_none : obs02 := mk 0 0 0 0.
@@ -35,10 +42,10 @@ Definition run_C02 (c : case02) : obs02 :=
   | QLastAddr => o_out (fun v => mk 1 v 0 0) (gm_last_addr m L)
   | QHostAddress =>
       o_out (fun o => match o with inl (i, off) => mk 1 (N.of_nat i) off 0 | inr e => mk 2 (err_code e) 0 0 end)
-            (gm_get_host_address find_lin L a)
+            (gm_get_host_address_fl find_lin (c2_host c) L a)
   | QGetSlice =>
       o_out (fun o => match o with inl (i, off, n) => mk 1 (N.of_nat i) off n | inr e => mk 2 (err_code e) 0 0 end)
-            (gm_get_slice find_lin L a b)
+            (gm_get_slice_fl find_lin (c2_slice c) L a b)
   | QIter => {| o2_k := 1; o2_x := gm_num_regions L; o2_y := 0; o2_z := 0;
                 o2_l1 := map fst (gm_iter L); o2_l2 := map snd (gm_iter L) |}
   | RLastAddr => o_out (fun v => mk 1 v 0 0) (r_last_addr m (fst r) (snd r))
@@ -46,6 +53,16 @@ Definition run_C02 (c : case02) : obs02 :=
   | RCheckAddress => o_opt (r_check_address (snd r) b)
   | RCheckedOffset => o_opt (r_checked_offset (snd r) b (c2_c c))
   | RToRegionAddr => o_opt (r_to_region_addr (fst r) (snd r) b)
+  | RHostAddress =>
+      match fl_get_host_address (c2_host c) (snd r) b with
+      | inl p => mk 1 p 0 0 | inr e => mk 2 (err_code e) 0 0 end
+  | RGetSlice =>
+      match fl_get_slice (c2_slice c) (snd r) b (c2_c c) with
+      | inl (p, n) => mk 1 p n 0 | inr e => mk 2 (err_code e) 0 0 end
+  | RAsVolatileSlice =>
+      match fl_as_volatile_slice (c2_slice c) (snd r) with
+      | inl (p, n) => mk 1 p n 0 | inr e => mk 2 (err_code e) 0 0 end
+  | RFileOffset => o_opt rd_file_offset
   end.
 
 Definition enc02 (op : qop) (o : obs02) : list tok :=
@@ -53,7 +70,10 @@ Definition enc02 (op : qop) (o : obs02) : list tok :=
   match op with QIter => [TL (o2_l1 o); TL (o2_l2 o)] | _ => [] end.
 
 Definition is_rop (op : qop) : bool :=
-  match op with RLastAddr | RAddressInRange | RCheckAddress | RCheckedOffset | RToRegionAddr => true | _ => false end.
+  match op with
+  | RLastAddr | RAddressInRange | RCheckAddress | RCheckedOffset | RToRegionAddr
+  | RHostAddress | RGetSlice | RAsVolatileSlice | RFileOffset => true
+  | _ => false end.
 
 Definition u64b (x : N) : bool := x <? W64.
 
@@ -65,9 +85,10 @@ Definition suite_C02 (inp obs : list tok) : verdict :=
           if (length starts =? length lens)%nat && forallb u64b starts && forallb u64b lens
              && u64b a && u64b b && u64b c
              && (if is_rop op' then a <? N.of_nat (length starts) else true)
-             && (if kind =? 3 then negb (op =? 8) else true) then
+             && (kind <=? 5) then
             let cs := {| c2_mode := if md =? 0 then Debug else Release; c2_L := combine starts lens;
-                         c2_op := op'; c2_a := a; c2_b := b; c2_c := c |} in
+                         c2_op := op'; c2_a := a; c2_b := b; c2_c := c;
+                         c2_host := kind_host kind; c2_slice := kind_slice kind |} in
             let ro := match obs with
                       | [TN k; TN x; TN y; TN z] => Some (mk k x y z)
                       | [TN k; TN x; TN y; TN z; TL l1; TL l2] =>
